@@ -351,6 +351,11 @@ func main() {
 			})
 		}
 		v := vh.RandValue(r, t, vh.ValOpts{BigLens: true, NoNaN: format == "json", NoInf: format == "json", MaxLen: 5})
+		if i%83 == 7 { // zero padding (but for its last byte): a mis-addressed field then reads zeros, not wild headers
+			pad := v.Field(0)
+			pad.Set(reflect.Zero(pad.Type()))
+			pad.Index(pad.Len() - 1).SetUint(1)
+		}
 		h := vh.NewHandle(format, o)
 		line := fmt.Sprintf("%d|%s|%s|%s", i, format, o.String(), t.String())
 		var enc []byte
